@@ -23,11 +23,13 @@ import (
 	"fmt"
 	"io"
 	"math/rand"
+	"os"
 	"reflect"
 	"runtime"
 	"strconv"
 	"strings"
 	"sync"
+	"syscall"
 	"testing"
 	"time"
 	"unsafe"
@@ -77,6 +79,7 @@ type c11Env struct {
 	fail     string
 	sig      string
 	step     int
+	openFails int
 }
 
 func (e *c11Env) setFail(sig, msg string) {
@@ -490,6 +493,47 @@ func (e *c11Env) do(op c11Op) c11StepRes {
 		}
 		e.refreshID()
 		return c11StepRes{act: "ALoopEnd", obs: "OOk"}
+	case "openfail":
+		// Store.Open made to fail at every point a resource fault can reach: RLIMIT_NOFILE is
+		// lowered to "no new descriptor", then raised one descriptor at a time, so successive
+		// attempts fail at the directory scan, at opening the data files, at Len(), at reading
+		// meta.json ...  A failed Open must leave the lock exactly as it was (model: ATick).
+		// The store verifies the CRC32 of its data files lazily, once, on the first use - and treats
+		// ANY error of that check (also a transient EMFILE) as a fatal integrity error that exits the
+		// process.  That one-off check must therefore not fall into the window in which descriptors
+		// are withheld: it is run here first (it is a no-op afterwards).  With a reaper holding the
+		// lock an Open is refused before it gets that far, so nothing needs to be done then.
+		if !(e.manual == "reaping" || e.loop == "reaping") {
+			if err := e.store.EnsureVerify(); err != nil {
+				return c11StepRes{skip: true}
+			}
+		}
+		ents, err := os.ReadDir("/proc/self/fd")
+		if err != nil {
+			return c11StepRes{skip: true}
+		}
+		var orig syscall.Rlimit
+		if err := syscall.Getrlimit(syscall.RLIMIT_NOFILE, &orig); err != nil {
+			return c11StepRes{skip: true}
+		}
+		func() {
+			defer syscall.Setrlimit(syscall.RLIMIT_NOFILE, &orig)
+			for lim := uint64(len(ents)); lim < uint64(len(ents))+16; lim++ {
+				if err := syscall.Setrlimit(syscall.RLIMIT_NOFILE, &syscall.Rlimit{Cur: lim, Max: orig.Max}); err != nil {
+					return
+				}
+				_, rc, err := e.store.Open(e.lastID)
+				if err == nil {
+					// enough descriptors: a complete Open; hand it back at once
+					if _, p := c11Call(rc.Close); p {
+						e.setFail("C11:release-panic", "Close right after Open panicked")
+					}
+					return
+				}
+				e.openFails++
+			}
+		}()
+		return c11StepRes{act: "ATick", obs: "OOk"}
 	case "waitfire": // timer schedules: let the idle timers of all open streams expire
 		if e.mode != "timer" {
 			return c11StepRes{skip: true}
@@ -618,14 +662,13 @@ func c11RunSchedule(t *testing.T, w *vWriter, in c11Input, gen func(e *c11Env) (
 	// process, which nothing can recover.  So that the schedule is not lost, a provisional failing
 	// case (with the operations so far) is kept at the end of cases.jsonl while the schedule runs;
 	// it is turned into an unparsable line (which bin/check skips) as soon as it is superseded.
-	pending := false
 	cancel := func() {
-		if pending {
+		if c11Pending {
 			w.mu.Lock()
 			w.w.WriteString(" CANCELLED\n")
 			w.w.Flush()
 			w.mu.Unlock()
-			pending = false
+			c11Pending = false
 		}
 	}
 	provisional := func(step int, op c11Op) {
@@ -643,7 +686,7 @@ func c11RunSchedule(t *testing.T, w *vWriter, in c11Input, gen func(e *c11Env) (
 		w.w.Write(b)
 		w.w.Flush()
 		w.mu.Unlock()
-		pending = true
+		c11Pending = true
 	}
 	emit := func(vc VCase) {
 		cancel()
@@ -777,11 +820,38 @@ func c11RunSchedule(t *testing.T, w *vWriter, in c11Input, gen func(e *c11Env) (
 	if races > 0 {
 		vc.Tags = append(vc.Tags, "close-vs-timer")
 	}
+	if e.openFails > 0 {
+		vc.Tags = append(vc.Tags, "open-failure")
+	}
 	if e.fail != "" {
+		if in.Mode == "timer" && c11TimerAttempt < 2 {
+			// Real timers race with the driver: on a starved machine a step can outlast the idle
+			// timeout and the observation the oracle judged is then not the one the driver believes
+			// it made.  A failure of a real-timer schedule counts only if the same operations fail
+			// three times in a row; the run that does not fail is the one that is kept (and compared
+			// with the model).  Schedules with injected fires are never retried.
+			c11TimerAttempt++
+			cancel()
+			// kept (provisionally, as above) in case the process dies during the re-run: a goroutine
+			// of this run's store may still panic
+			if b, err := json.Marshal(VCase{Input: in, Key: vJSON(in), OracleFail: e.fail + " (and the test process died while the schedule was re-run for confirmation)", Sig: e.sig}); err == nil {
+				w.mu.Lock()
+				w.w.Write(b)
+				w.w.Flush()
+				w.mu.Unlock()
+				c11Pending = true
+			}
+			c11RunSchedule(t, w, in, nil)
+			c11TimerAttempt--
+			return
+		}
 		vc.OracleFail, vc.Sig = e.fail, e.sig
 	}
 	emit(vc)
 }
+
+var c11TimerAttempt int
+var c11Pending bool // a provisional case sits, unterminated, at the end of cases.jsonl
 
 // ---------------------------------------------------------------- free-running family: an Open slips in
 //
@@ -913,8 +983,10 @@ func c11Gen(rng *rand.Rand, mode string) func(e *c11Env) (c11Op, bool) {
 					continue
 				}
 				op = c11Op{Op: "earlyfire", I: pick()}
-			case k < 70:
+			case k < 68:
 				op = c11Op{Op: "create"}
+			case k < 70:
+				op = c11Op{Op: "openfail"}
 			case k < 78:
 				op = c11Op{Op: "reapbegin"}
 			case k < 84:
@@ -978,6 +1050,7 @@ func TestVerif_C11(t *testing.T) {
 		{Mode: "inject", Ops: []c11Op{{Op: "open"}, {Op: "read", I: 0}, {Op: "reapbegin"}, {Op: "loopbegin"}, {Op: "open"}, {Op: "fire", I: 0}, {Op: "read", I: 0}, {Op: "close", I: 0}, {Op: "close", I: 1}, {Op: "open"}, {Op: "loopend"}, {Op: "open"}, {Op: "close", I: 3}}},
 		{Mode: "inject", Ops: []c11Op{{Op: "create"}, {Op: "open"}, {Op: "create"}, {Op: "loopbegin"}, {Op: "earlyfire", I: 0}, {Op: "read", I: 0}, {Op: "read", I: 0}, {Op: "read", I: 0}, {Op: "read", I: 0}, {Op: "read", I: 0}, {Op: "read", I: 0}, {Op: "read", I: 0}, {Op: "read", I: 0}, {Op: "close", I: 0}, {Op: "close", I: 0}, {Op: "fire", I: 0}, {Op: "open"}, {Op: "loopend"}, {Op: "open"}, {Op: "read", I: 2}}},
 		{Mode: "inject", Ops: []c11Op{{Op: "reapbegin"}, {Op: "open"}, {Op: "loopbegin"}, {Op: "reapend"}, {Op: "open"}, {Op: "loopend"}, {Op: "open"}, {Op: "reapbegin"}, {Op: "fire", I: 2}, {Op: "reapbegin"}, {Op: "reapend"}}},
+		{Mode: "inject", Ops: []c11Op{{Op: "openfail"}, {Op: "open"}, {Op: "openfail"}, {Op: "reapbegin"}, {Op: "loopbegin"}, {Op: "openfail"}, {Op: "read", I: 0}, {Op: "close", I: 0}, {Op: "openfail"}, {Op: "loopend"}, {Op: "openfail"}}},
 		{Mode: "timer", Ops: []c11Op{{Op: "open"}, {Op: "open"}, {Op: "loopbegin"}, {Op: "read", I: 0}, {Op: "waitfire"}, {Op: "read", I: 0}, {Op: "close", I: 1}, {Op: "loopend"}, {Op: "open"}, {Op: "raceclose", I: 2}, {Op: "reapbegin"}, {Op: "reapend"}}},
 	} {
 		c11RunSchedule(t, w, in, nil)
